@@ -387,6 +387,42 @@ func TestPaging(t *testing.T) {
 				}
 			}
 		}
+		// a client is free to ask for a different page size on every request: the token alone carries the position
+		if len(want) > 1 && len(want) <= 200 && rapid.IntRange(0, 1).Draw(t, "varySizes") == 0 {
+			sizes := rapid.SliceOfN(rapid.SampledFrom([]int32{1, 2, 3, 7, 0, 50, 1000, 5000}), 2, 6).Draw(t, "sizes")
+			if n := len(want); rapid.Bool().Draw(t, "sizeAroundN") {
+				sizes = append(sizes, int32(n-1), int32(n), int32(n+1))
+			}
+			var all []proto.Message
+			token := ""
+			for page := 0; ; page++ {
+				sz := sizes[page%len(sizes)]
+				if sz < 0 {
+					sz = 1
+				}
+				r := callPage(list, sz, token, nil)
+				vdesc := fmt.Sprintf("%s with page sizes %v, page %d (size %d, token %q)", desc, sizes, page, sz, token)
+				if r.panic != nil || r.err != nil {
+					t.Fatalf("%s: panic=%v err=%v", vdesc, r.panic, r.err)
+				}
+				if len(r.items) > effectiveSize(sz) {
+					t.Fatalf("%s: %d items, more than the page size", vdesc, len(r.items))
+				}
+				all = append(all, r.items...)
+				if r.next == "" {
+					break
+				}
+				if page > len(want)+4 {
+					t.Fatalf("%s: token chain did not end (%d items so far, %d exist)", vdesc, len(all), len(want))
+				}
+				token = r.next
+			}
+			gotV := keysOf(p, all)
+			if fmt.Sprint(gotV) != fmt.Sprint(want) {
+				t.Fatalf("%s with page sizes %v cycling: enumerated %q, want every item exactly once in order %q", desc, sizes, gotV, want)
+			}
+			lib.Ev.Class("paging:walk with a different page size per request")
+		}
 		lib.Ev.Class("paging:" + p.name)
 		nt := ""
 		if masked && pages >= 2 {
